@@ -365,7 +365,7 @@ def run_check(tier, seed):
                '-I' + os.path.join(tree, 'src/drivers/include'), '-I' + os.path.join(tree, 'src/include')]
         unit = cc(tree, [os.path.join(VERIF, 'harness/c04_unit.c')], os.path.join(wd, 'c04_unit'), extra=inc)
         api = cc(tree, [os.path.join(VERIF, 'harness/c04_api.c')], os.path.join(wd, 'c04_api'))
-        nvalid = 250 if tier == 'quick' else 3000
+        nvalid = 250 if tier == 'quick' else 8000
         cases = []          # dict(kind, schema|None, path, bytes, tags, chunks)
         schemas = []
         for i in range(nvalid):
